@@ -346,6 +346,55 @@ def hetero_case(ctx: Ctx, stream: str, i: int) -> None:
     ctx.case(f'hetero:{shapes}:{idx}:{form}', True, sample=cfg)
 
 
+def foreign_index_case(ctx: Ctx, stream: str, i: int) -> None:
+    """integer index arrays handed over as NumPy arrays or Python lists (not JAX arrays), with repeated or negatively
+    aliased entries, alone or next to slices / an ellipsis.  The library may not support every such form (an exception is
+    tolerated and counted); but whatever it accepts must select as NumPy does, scatter-add on transposition, and
+    `P @ P.T` may become the identity only if no element is selected twice"""
+    from furax._base.core import CompositionOperator, IdentityOperator
+    from furax._base.indices import IndexOperator
+    rng = ctx.rng(stream, i)
+    shape = rng.choice([(5,), (5, 3), (4, 2)])
+    n0 = shape[0]
+    vals = rng.choice([[0, n0 - 1, 0, 2], [1, 1], [0, -n0, 2], [n0 - 1, -1], [0, 1, 2], [2, 0, 1]])
+    form = ['numpy', 'list', 'numpy-int64', 'list'][i % 4]
+    arr = np.asarray(vals, dtype=np.int32) if form == 'numpy' else np.asarray(vals, dtype=np.int64) if form == 'numpy-int64' else list(vals)
+    tail = rng.choice(['none', 'slice', 'ellipsis']) if len(shape) > 1 else rng.choice(['none', 'ellipsis'])
+    idx = (arr,) if tail == 'none' else (arr, slice(None)) if tail == 'slice' else (arr, Ellipsis)
+    given = rng.choice([None, None, False])
+    cfg = {'shape': shape, 'index_values': vals, 'given_as': form, 'tail': tail, 'unique_indices': given}
+    x = np.arange(int(np.prod(shape)), dtype=np.float64).reshape(shape)
+    want = x[(np.asarray(vals),) + idx[1:]]
+    st, op = safe(lambda: IndexOperator(idx if tail != 'none' or rng.random() < 0.5 else arr,
+                                        in_structure=jax.ShapeDtypeStruct(shape, jnp.float32), unique_indices=given))
+    if st != 'ok':
+        ctx.count(f'foreign-index:ctor-{st}')
+        ctx.case(f'foreign:{cfg}', False)
+        return
+    stm, y = safe(op.mv, jnp.asarray(x, dtype=jnp.float32))
+    if stm != 'ok':
+        ctx.count(f'foreign-index:mv-{stm}')
+    elif np.asarray(y).shape != want.shape or not np.array_equal(np.asarray(y), want):
+        ctx.fail(stream, i, 'index-wrong:foreign-index', f'an index given as a {form} selects something else than NumPy does', cfg)
+    pos = [int(v) for v in want.ravel()]
+    unique = len(set(pos)) == len(pos)
+    e1 = CompositionOperator([op, op.T])
+    st1, r1 = safe(e1.reduce)
+    if st1 != 'ok':
+        ctx.count(f'foreign-index:reduce-{st1}')
+    else:
+        if isinstance(r1, IdentityOperator) and not unique:
+            ctx.fail(stream, i, 'ppT-identity-with-duplicates:foreign-index', f'P @ P.T reduced to the identity although the index '
+                     f'(a {form}: {vals}) selects an element twice', cfg)
+        else:
+            std, dr = safe(gen.dense, r1)
+            std2, de = safe(gen.dense, e1)
+            if std == 'ok' and std2 == 'ok' and not gen.close(dr, de):
+                ctx.fail(stream, i, 'ppT-reduce-changes-map:foreign-index', 'reduce(P @ P.T) differs from P @ P.T', cfg)
+    ctx.count('foreign-index:' + form)
+    ctx.case(f'foreign:{cfg}', True, sample=cfg)
+
+
 def rule_case(ctx: Ctx, stream: str, i: int) -> None:
     """TransposeIndexRule in isolation: ONE axis indexed by an integer array of rank 0-3 (every other axis taken
     whole), few or many distinct values, negative aliases, repeats; P.T @ P must reduce to the diagonal of the
@@ -506,6 +555,9 @@ def run(ctx: Ctx) -> None:
     for i in range(260 if q else 6000):
         if ctx.want('index', i):
             one_case(ctx, 'index', i)
+    for i in range(24 if ctx.tier == 'quick' else 240):
+        if ctx.want('foreign', i):
+            foreign_index_case(ctx, 'foreign', i)
     for i, form in enumerate(mask_int_forms()):
         if ctx.want('maskint', i):
             one_case(ctx, 'maskint', i, forced=form)
